@@ -25,7 +25,7 @@ SetOf(arr) == {arr[i] : i \in DOMAIN arr}
 
 TraceInit ==
   /\ l = 1 /\ drift = 0 /\ viol = {}
-  /\ has = {} /\ gone = {} /\ dereg = {} /\ bel = [n \in Node |-> {}] /\ up = {}
+  /\ has = {} /\ gone = {} /\ dereg = {} /\ rejoin = {} /\ bel = [n \in Node |-> {}] /\ up = {}
   /\ at = "" /\ fwd = FALSE /\ hops = 0 /\ runs = [n \in Node |-> 0]
   /\ outcome = "" /\ servedBy = "" /\ entry = "" /\ ext = "none"
 
@@ -60,6 +60,7 @@ TraceNext ==
      IN /\ has' = IF route THEN SetOf(e.has) ELSE {}
         /\ gone' = IF route THEN SetOf(e.gone) ELSE {}
         /\ dereg' = IF route THEN SetOf(e.dereg) ELSE {}
+        /\ rejoin' = IF route THEN SetOf(e.rejoin) ELSE {}
         /\ bel' = IF route THEN BelOf(e) ELSE [n \in Node |-> {}]
         /\ up' = IF route THEN SetOf(e.nodes) ELSE {}
         /\ entry' = IF route THEN e.entry ELSE ""
